@@ -67,21 +67,22 @@ func parseTime(in string) (time.Time, error) {
 	var nsec int
 	if c == '.' || c == ',' {
 		remaining = remaining[1:]
-		// Fractional seconds!
-		var val, i int
-		var c rune
+		// Fractional seconds! Digits beyond nanosecond precision are dropped,
+		// as time.Parse does.
+		var val, digits int
 		var mult int = 1e9
-		for i, c = range remaining {
-			if c >= '0' && c <= '9' {
-				val = val*10 + int(c-'0')
+		for digits < len(remaining) && remaining[digits] >= '0' && remaining[digits] <= '9' {
+			if mult > 1 {
+				val = val*10 + int(remaining[digits]-'0')
 				mult /= 10
-			} else {
-				i -= 1
-				break
 			}
+			digits++
+		}
+		if digits == 0 {
+			return time.Time{}, fmt.Errorf("no digits follow the decimal separator")
 		}
 		nsec = val * mult
-		remaining = remaining[i+1:]
+		remaining = remaining[digits:]
 		if len(remaining) == 0 {
 			return time.Time{}, fmt.Errorf("too short to contain timezone")
 		}
